@@ -33,22 +33,24 @@ theorem flushText_toks {E : Env} {st st1 : St} {lp : Loop} (hI : LoopInv E st lp
 /-- `delim` for `{{`, with everything the later files need: the value is `.ok`, the loop invariant
 goes on, the token list grows by `newer ++ [{{ token] ++ (flushed Text token)`, and a `.cont` result
 differs from the entry state, as far as the context machine can see, only in the position. -/
-theorem delim_show_full {E : Env} {st : St} {lp : Loop} (hI : LoopInv E st lp) (h2 : lp.p + 2 ≤ srcLen E st) :
+theorem delim_show_full {E : Env} {st : St} {lp : Loop} (hI : LoopInv E st lp) (hB : Bal st)
+    (h2 : lp.p + 2 ≤ srcLen E st) :
     ∃ (o : Out) (tok : Tok) (older newer : List Tok), delim E st lp 0 = .ok o ∧ OutGood E st lp o ∧
       Flushed st lp older ∧
       (outSt o).toks = newer ++ tok :: older ∧ tok.typ = tokenLeftBraces ∧ tok.ctx = st.ctx ∧
       tok.start = ((st.base + lp.p : Nat) : Int) ∧
       (∀ st' lp', o = .cont st' lp' →
-        proj st' lp' = { proj st lp with pos := st'.base + lp'.p } ∧ lp'.p = 0 ∧
+        proj st' lp' = { proj st lp with pos := st'.base + lp'.p } ∧ lp'.p = 0 ∧ st'.lbase = st.lbase ∧
         ∃ st1, flushText E st lp = .ok st1 ∧ lexShow E st1 = .ok (st', none)) := by
-  obtain ⟨o, ho, hg⟩ := delim_ok (codeSpec E) (which := 0) hI h2 (by omega)
+  obtain ⟨o, ho, hg⟩ := delim_ok (codeSpec E) (which := 0) hI hB h2 (by omega)
   obtain ⟨st1, h1, e1, b1, cf1, _, _, _⟩ := flushText_val hI
   have hfl := flushText_toks hI h1
   have hs1 : srcLen E st1 = srcLen E st - lp.p := by unfold srcLen; rw [b1]; omega
   obtain ⟨st2, tok, h2', e2, b2, cf2, _, _, tk2, ty2, cx2, stt2⟩ := emit_val (E := E) (st := st1)
     (typ := tokenLeftBraces) (n := 2) (by omega) e1.le_len
   obtain ⟨st3, e, h3, e3, _, hpost⟩ := (codeSpec E).lexCode_ok tokenRightBraces (addCol st2 2) e2.le_len
-  obtain ⟨_, new3, hnew3, _⟩ := e3
+    ((e1.trans e2).bal hB)
+  obtain ⟨_, ⟨new3, hnew3, _⟩, _⟩ := e3
   have hctx : tok.ctx = st.ctx := by
     rw [cx2, cf1.ctx]
     simp [tokenLeftBraces, tokenText]
@@ -67,7 +69,7 @@ theorem delim_show_full {E : Env} {st : St} {lp : Loop} (hI : LoopInv E st lp) (
     have hn2 : 2 ≤ srcLen E st3 := (hpost rfl).1 (Or.inl rfl)
     obtain ⟨st4, t4, h4, e4, _⟩ := emit_val (E := E) (st := st3) (typ := tokenRightBraces) (n := 2) hn2
       (by unfold srcLen at hn2; omega)
-    obtain ⟨_, new4, hnew4, _⟩ := e4
+    obtain ⟨_, ⟨new4, hnew4, _⟩, _⟩ := e4
     have hshow : lexShow E st1 = .ok (addCol st4 2, none) := by
       simp only [lexShow, lexBlock, emitAdv, h2', bind_ok, pure_eq_ok, h3, h4]
     simp only [h4, bind_ok, Nat.zero_ne_one, if_false] at ho
@@ -79,8 +81,8 @@ theorem delim_show_full {E : Env} {st : St} {lp : Loop} (hI : LoopInv E st lp) (
     · intro st' lp' h
       cases h
       have hsc := lexShow_sameCtx E st1 _ none hshow
-      obtain ⟨s1, _, s3, s4, s5, s6⟩ := hsc
-      refine ⟨?_, rfl, st1, h1, hshow⟩
+      obtain ⟨s1, _, s3, s4, s5, s6, s7⟩ := hsc
+      refine ⟨?_, rfl, s7.trans cf1.lbase, st1, h1, hshow⟩
       unfold proj
       simp only [resetTok]
       rw [s1, s3, s4, s5, s6, cf1.ctx, cf1.tagCtx, cf1.tagName, cf1.tagAttr, cf1.tagIndex]
@@ -88,7 +90,7 @@ theorem delim_show_full {E : Env} {st : St} {lp : Loop} (hI : LoopInv E st lp) (
 /-- the iteration of the main loop at a `{{` -/
 theorem step_at_show {E : Env} {st : St} {lp : Loop} (hf : htmlFamily st.ctx) (hE : E.noParseShow = false)
     (h0 : E.text[st.base + lp.p]? = some 0x7b) (h1 : E.text[st.base + lp.p + 1]? = some 0x7b) :
-    step E FHtml st lp = delim E st lp 0 := by
+    step E st lp = delim E st lp 0 := by
   have hlen : st.base + lp.p + 1 < E.text.length := lt_of_getElem?_eq_some h1
   unfold step
   have hsrc : srcAt E st lp.p = .ok 0x7b := srcAt_eq_peek h0
@@ -100,23 +102,23 @@ theorem step_at_show {E : Env} {st : St} {lp : Loop} (hf : htmlFamily st.ctx) (h
 /-- The show step of the full model (Step 3). -/
 theorem show_step {E : Env} {st : St} {lp : Loop} (hI : LoopInv E st lp) (hf : htmlFamily st.ctx)
     (hft : htmlFamily st.tagCtx) (hE : E.noParseShow = false)
-    (h0 : E.text[st.base + lp.p]? = some 0x7b) (h1 : E.text[st.base + lp.p + 1]? = some 0x7b) :
-    ∃ (o : Out) (tok : Tok) (older newer : List Tok), step E FHtml st lp = .ok o ∧ OutGood E st lp o ∧
+    (h0 : E.text[st.base + lp.p]? = some 0x7b) (h1 : E.text[st.base + lp.p + 1]? = some 0x7b) (hB : Bal st) :
+    ∃ (o : Out) (tok : Tok) (older newer : List Tok), step E st lp = .ok o ∧ OutGood E st lp o ∧
       Flushed st lp older ∧
       (outSt o).toks = newer ++ tok :: older ∧ tok.typ = tokenLeftBraces ∧ tok.ctx = st.ctx ∧
       tok.start = ((st.base + lp.p : Nat) : Int) ∧
       (∀ st' lp', o = .cont st' lp' →
         proj st' lp' = { proj st lp with pos := st'.base + lp'.p } ∧ lp'.p = 0 ∧
-        htmlFamily st'.ctx ∧ htmlFamily st'.tagCtx ∧
+        htmlFamily st'.ctx ∧ htmlFamily st'.tagCtx ∧ st'.lbase = st.lbase ∧
         ∃ st1, flushText E st lp = .ok st1 ∧ lexShow E st1 = .ok (st', none)) := by
   have hlen : st.base + lp.p + 1 < E.text.length := lt_of_getElem?_eq_some h1
   have h2 : lp.p + 2 ≤ srcLen E st := by unfold srcLen; omega
-  obtain ⟨o, tok, older, newer, hd, hg, hfl, htoks, hty, hcx, hstt, hcont⟩ := delim_show_full hI h2
+  obtain ⟨o, tok, older, newer, hd, hg, hfl, htoks, hty, hcx, hstt, hcont⟩ := delim_show_full hI hB h2
   refine ⟨o, tok, older, newer, by rw [step_at_show hf hE h0 h1]; exact hd, hg, hfl, htoks, hty, hcx, hstt, ?_⟩
   intro st' lp' ho
-  obtain ⟨hp, hp0, hsh⟩ := hcont st' lp' ho
+  obtain ⟨hp, hp0, hlb, hsh⟩ := hcont st' lp' ho
   have hc : st'.ctx = st.ctx := congrArg CSt.ctx hp
   have htc : st'.tagCtx = st.tagCtx := congrArg CSt.tagCtx hp
-  exact ⟨hp, hp0, by rw [hc]; exact hf, by rw [htc]; exact hft, hsh⟩
+  exact ⟨hp, hp0, by rw [hc]; exact hf, by rw [htc]; exact hft, hlb, hsh⟩
 
 end ScriggoV.LexCtx
